@@ -19,7 +19,8 @@
 // directory; 0-0 otherwise), and how it is tracked: the WaitGroup expression X
 // when the site is X.Go(...) or when a statement X.Add(n) on a declared
 // sync.WaitGroup precedes it in the same function (the nearest one), else
-// "untracked".
+// "untracked"; and, for a site tracked through X.Add, the lock whose RLock() call
+// precedes that Add in the same function (the registration guard), if any.
 //
 // Anything else aborts: a `go` statement whose operand is not a call of an
 // identifier, selector or literal; a .Go( call whose receiver is not a declared
@@ -52,6 +53,7 @@ type grSite struct {
 	callee           string
 	bodyLo, bodyHi   int
 	track            string
+	guard            string // lock whose RLock() precedes the X.Add(n) the site is tracked by ("" = none)
 }
 
 func grPos(n ast.Node) string { return fset.Position(n.Pos()).String() }
@@ -238,15 +240,16 @@ func genGoroutines() {
 	b.WriteString("Record gsite := {\n  gs_file : string;    (* file, relative to the repository root *)\n  gs_func : string;    (* enclosing top-level function (Type.method for methods) *)\n")
 	b.WriteString("  gs_idx : nat;        (* ordinal of the site within that function *)\n  gs_line : N;\n  gs_kind : gkind;\n  gs_callee : string;  (* function started; \"\" for a function literal *)\n")
 	b.WriteString("  gs_body_lo : N;      (* line range of the code the goroutine runs; 0 0 = declared elsewhere *)\n  gs_body_hi : N;\n")
-	b.WriteString("  gs_track : string    (* WaitGroup the site is registered with, or \"untracked\" *)\n}.\n\n")
+	b.WriteString("  gs_track : string;   (* WaitGroup the site is registered with, or \"untracked\" *)\n")
+	b.WriteString("  gs_guard : string    (* lock whose RLock() precedes that registration in the same function, or \"\" *)\n}.\n\n")
 	b.WriteString("Definition sites : list gsite := [\n")
 	for i, s := range sites {
 		sep := ";"
 		if i == len(sites)-1 {
 			sep = ""
 		}
-		fmt.Fprintf(&b, "  {| gs_file := %q; gs_func := %q; gs_idx := %d; gs_line := %d; gs_kind := %s; gs_callee := %q; gs_body_lo := %d; gs_body_hi := %d; gs_track := %q |}%s\n",
-			s.file, s.fn, s.idx, s.line, s.kind, s.callee, s.bodyLo, s.bodyHi, s.track, sep)
+		fmt.Fprintf(&b, "  {| gs_file := %q; gs_func := %q; gs_idx := %d; gs_line := %d; gs_kind := %s; gs_callee := %q; gs_body_lo := %d; gs_body_hi := %d; gs_track := %q; gs_guard := %q |}%s\n",
+			s.file, s.fn, s.idx, s.line, s.kind, s.callee, s.bodyLo, s.bodyHi, s.track, s.guard, sep)
 	}
 	b.WriteString("].\n")
 	write("Goroutines.v", b.String())
@@ -311,9 +314,16 @@ func grScanFile(rel string, f *ast.File, wgs map[string]bool, decls map[string][
 			die("goroutines: %s: cannot classify the function started here (%T)", grPos(callee), callee)
 			return "", 0, 0
 		}
-		// nearest preceding X.Add(n) on a declared WaitGroup in the same function body
-		tracked := func(fn *ast.BlockStmt, at token.Pos) string {
+		// nearest preceding X.Add(n) on a declared WaitGroup in the same function body, and the lock whose
+		// RLock() call statement precedes that Add in the same function (the `wgLk.RLock(); if closed {...};
+		// wg.Add(1); wgLk.RUnlock()` registration guard), if any
+		tracked := func(fn *ast.BlockStmt, at token.Pos) (string, string) {
 			best, bestPos := "untracked", token.NoPos
+			type lk struct {
+				name string
+				pos  token.Pos
+			}
+			var rlocks []lk
 			ast.Inspect(fn, func(n ast.Node) bool {
 				if n == nil {
 					return false
@@ -323,17 +333,29 @@ func grScanFile(rel string, f *ast.File, wgs map[string]bool, decls map[string][
 				}
 				if es, ok := n.(*ast.ExprStmt); ok {
 					if call, ok := es.X.(*ast.CallExpr); ok {
-						if sel, ok := call.Fun.(*ast.SelectorExpr); ok && sel.Sel.Name == "Add" && len(call.Args) == 1 {
+						if sel, ok := call.Fun.(*ast.SelectorExpr); ok {
 							x := grExpr(sel.X)
-							if x != "" && wgs[grLast(x)] && call.Pos() < at && call.Pos() > bestPos {
+							if sel.Sel.Name == "Add" && len(call.Args) == 1 && x != "" && wgs[grLast(x)] && call.Pos() < at && call.Pos() > bestPos {
 								best, bestPos = x, call.Pos()
+							}
+							if sel.Sel.Name == "RLock" && len(call.Args) == 0 && x != "" {
+								rlocks = append(rlocks, lk{x, call.Pos()})
 							}
 						}
 					}
 				}
 				return true
 			})
-			return best
+			guard := ""
+			if bestPos != token.NoPos {
+				gp := token.NoPos
+				for _, l := range rlocks {
+					if l.pos < bestPos && l.pos > gp {
+						guard, gp = l.name, l.pos
+					}
+				}
+			}
+			return best, guard
 		}
 		walk = func(n ast.Node, fn *ast.BlockStmt) {
 			ast.Inspect(n, func(m ast.Node) bool {
@@ -345,8 +367,9 @@ func grScanFile(rel string, f *ast.File, wgs map[string]bool, decls map[string][
 					}
 				case *ast.GoStmt:
 					callee, lo, hi := body(x.Call.Fun)
+					tr, gd := tracked(fn, x.Pos())
 					out = append(out, grSite{file: rel, fn: fname, idx: idx, line: grLine(x.Pos()), kind: "KGo", callee: callee,
-						bodyLo: lo, bodyHi: hi, track: tracked(fn, x.Pos())})
+						bodyLo: lo, bodyHi: hi, track: tr, guard: gd})
 					idx++
 					// the operand may itself contain start sites (a literal's body)
 					if lit, ok := x.Call.Fun.(*ast.FuncLit); ok {
